@@ -1,6 +1,93 @@
-/-! line protocol for C01 (stub: no model yet) -/
+import ObiVerif.Model.Chunk
+import ObiVerif.Model.Fasta
+import ObiVerif.Model.Fastq
+import ObiVerif.Model.FlatFile
+import ObiVerif.Driver.Util
+/-! line protocol for C01 (see harness/c01.go for the ops) -/
 namespace ObiVerif.Driver.C01
+open ObiVerif.Chunk ObiVerif.Parse ObiVerif.Driver
 
-def run (_line : String) : String := "bad-op"
+def splitterOf (n : String) : Option (Seq → Int) :=
+  match n with
+  | "fa" => some splitFasta
+  | "fq" => some splitFastq
+  | "ff" => some splitFlat
+  | _ => none
+
+/-- (splitter, chunk parser) of a format name -/
+def formatOf (n : String) : Option ((Seq → Int) × (Seq → Except Fatal (List Rec))) :=
+  match n with
+  | "fa" => some (splitFasta, parseFasta)
+  | "fq1" => some (splitFastq, parseFastq 33 true)
+  | "fq0" => some (splitFastq, parseFastq 33 false)
+  | "gb0" => some (splitFlat, parseGenbank false)
+  | "gb1" => some (splitFlat, parseGenbank true)
+  | "em0" => some (splitFlat, parseEmbl false)
+  | "em1" => some (splitFlat, parseEmbl true)
+  | _ => none
+
+def showRec (r : Rec) : String :=
+  let q := match r.qual with
+    | some q => if q.isEmpty then "-" else hex q
+    | none => "-"
+  let base := s!"{hex r.id}:{hex r.defn}:{hex r.seq}:{q}"
+  let nd := if r.defn.isEmpty then 0 else 1
+  match r.flat with
+  | some (t, sci, feat) => s!"{base}:{t}:{hex sci}:{hex feat}#{nd + 2}"
+  | none => s!"{base}#{nd}"
+
+def showRecs (rs : List Rec) : String := if rs.isEmpty then "none" else joinSp (rs.map showRec)
+
+def showOutcome : Except Fatal (List Rec) → String
+  | .ok rs => showRecs rs
+  | .error .fatal => "fatal"
+  | .error .panic => "panic"
+
+/-- every chunk through the parser, in chunk order; a panic in any chunk wins over a fatal -/
+def pipeResult (parse : Seq → Except Fatal (List Rec)) (cs : List Seq) : String :=
+  let rs := cs.map parse
+  if rs.any (fun r => match r with | .error .panic => true | _ => false) then "panic"
+  else if rs.any (fun r => match r with | .error _ => true | _ => false) then "fatal"
+  else showRecs (rs.flatMap fun r => match r with | .ok l => l | .error _ => [])
+
+def run (line : String) : String :=
+  match words line with
+  | ["split", f, h] =>
+    match splitterOf f, unhex h with
+    | some sp, some d => toString (sp d)
+    | _, _ => "bad-op"
+  | ["chunks", f, b, h] =>
+    match splitterOf f, b.toNat?, unhex h with
+    | some sp, some b, some d =>
+      if b < 2 then "bad-op" else
+      match chunks sp b d with
+      | none => "hang"
+      | some cs => if cs.isEmpty then "none" else joinSp (cs.map hex)
+    | _, _, _ => "bad-op"
+  | ["parse", f, h] =>
+    match formatOf f, unhex h with
+    | some (_, p), some d => showOutcome (p d)
+    | _, _ => "bad-op"
+  | ["pipe", f, b, w, tr, h] =>
+    match formatOf f, b.toNat?, w.toNat?, unhex h with
+    | some (sp, p), some b, some w, some d =>
+      if b < 2 || w < 1 || w > 8 || !(["bytes", "pipe", "one", "gz"].contains tr) then "bad-op" else
+      match chunks sp b d with
+      | none => "hang"
+      | some cs => pipeResult p cs
+    | _, _, _, _ => "bad-op"
+  | ["big", f, w, tr, n, s] =>
+    -- oracle-only case (real Read* entry points on a generated multi-chunk file): the expected outcome
+    match formatOf f, w.toNat?, n.toNat?, s.toNat? with
+    | some _, some w, some n, some _ =>
+      if w < 1 || n < 1 || !(["bytes", "pipe", "one", "gz"].contains tr) then "bad-op"
+      else s!"ok {n}"
+    | _, _, _, _ => "bad-op"
+  | ["kseq", f, h] =>
+    -- oracle-only case (two-parser agreement)
+    match unhex h with
+    | some _ => if f == "fa" || f == "fq" then "agree" else "bad-op"
+    | none => "bad-op"
+  | _ => "bad-op"
 
 end ObiVerif.Driver.C01
